@@ -196,7 +196,7 @@ fn evaluate_source(
     Ok(())
 }
 
-fn main() -> ! {
+fn run() -> ! {
     // Handle shell completion generation
     if let Some(shell) = &ARGS.completions {
         let mut cmd = cli::Args::command();
@@ -716,4 +716,24 @@ fn main() -> ! {
         accumulated_input.clear();
         continuation = false;
     }
+}
+
+/// Stack size of the thread that runs the interpreter. Evaluation recurses natively: one
+/// user-level call costs several interpreter frames per level of expression nesting in the
+/// function body, and up to 1000 nested calls are allowed before the "maximum call depth"
+/// error is reported. The default 8 MiB main-thread stack overflows long before that limit
+/// for bodies of ordinary nesting, so run on a thread whose stack is sized for the limit
+/// (the memory is only reserved, and committed as it is touched).
+const INTERPRETER_STACK_SIZE: usize = 1024 * 1024 * 1024;
+
+fn main() {
+    let interpreter = std::thread::Builder::new()
+        .name("main".to_string())
+        .stack_size(INTERPRETER_STACK_SIZE)
+        .spawn(|| run())
+        .expect("failed to start the interpreter thread");
+
+    // `run` always ends the process itself; reaching this point means it panicked.
+    let _ = interpreter.join();
+    std::process::exit(101);
 }
